@@ -147,10 +147,27 @@ def unit_fn(unit):
     elif kind in ('subst', 'transp', 'luhn-transp-exact'):
         total = n + ncheck
         positions = range(total) if kind == 'subst' else range(total - 1)
+        window = unit.get('window')
+        if window:
+            # long strings: every payload position outside the window [i, i+1] is a concrete seed-chosen character of the
+            # alphabet; the window and the check characters stay symbolic (so the first string can still be made valid)
+            import random
+            rnd = random.Random(common.seed() * 1009 + n)
+            filler = [ord(rnd.choice(palpha)) for _ in range(n)]
+            positions = [i for i in positions if i < n - 1] if kind != 'subst' else [i for i in positions if i < n]
+            c0, cn = unit.get('chunk', (0, 1))
+            positions = [i for i in positions if i % cn == c0]
+        t_end = time.time() + unit['timeout']
         for i in positions:
+            if window and time.time() > t_end:
+                ur.res['limit'] = 'time: stopped before position %d of %d' % (i, len(positions))
+                break
+
             def body(i=i):
                 st = E.CUR
                 u, uc = E.symstr_alpha(n, palpha, 'u')
+                if window:
+                    uc = [c if k in (i, i + 1) else filler[k] for k, c in enumerate(uc)]
                 ck, cc = E.symstr_alpha(ncheck, calpha, 'q')
                 chars = uc + cc
                 i0 = len(st.cutrec)
@@ -235,6 +252,19 @@ def main(args):
                 u = {'cfg': list(cfg), 'n': n, 'kind': k, 'module': modname, 'L': n}
                 u.update(dict(max_paths=200, timeout=40, query_timeout_ms=20000) if tier == 'quick' else dict(max_paths=2000, timeout=600, query_timeout_ms=120000))
                 units.append(u)
+    # long strings (weights / tables that repeat with a period): windowed substitution and transposition at every position
+    for cfg in configs(tier):
+        modname, label, kw, palpha, calpha, ncheck, kinds, transp = cfg
+        if args.module and modname not in args.module:
+            continue
+        if label.startswith('mod') and label != 'mod16':
+            continue
+        for n in ([120] if tier == 'quick' else [120, 257]):
+            for k in ['subst'] + (['transp'] if transp in ('all', 'luhn') else []):
+                for c0 in range(4):
+                    u = {'cfg': list(cfg), 'n': n, 'kind': k, 'module': modname, 'L': n, 'window': True, 'prio': 1, 'chunk': (c0, 4)}
+                    u.update(dict(max_paths=20, timeout=60, query_timeout_ms=10000) if tier == 'quick' else dict(max_paths=50, timeout=600, query_timeout_ms=60000))
+                    units.append(u)
     rep = common.Report('C06', tier)
     rep.assumptions = ASSUMPTIONS
     rep.bounds = {'payload_lengths': lengths, 'alphabets': sorted(set(c[0] + ':' + c[1] for c in configs(tier))),
@@ -246,7 +276,7 @@ def main(args):
         if args.verbose:
             u = res['unit']
             print('[%d/%d] %s %s n=%s %s %s %s unknown=%s' % (done, total, u['module'], u['cfg'][1], u['n'], u['kind'], res.get('outcomes', res.get('error', res.get('skipped'))), res.get('wall_s'), res.get('unknown')), file=sys.stderr)
-    for res in common.run_units(unit_fn, common.shuffle_units(units), 2 * units[0]['timeout'] + 60 if units else 60, progress, deadline):
+    for res in common.run_units(unit_fn, common.shuffle_units(units), (lambda u: 2 * u.get('timeout', 40) + 60), progress, deadline):
         for k in lem:
             lem[k] += res.get('lemmas', {}).get(k, 0)
         rep.add_unit(res)
